@@ -169,6 +169,8 @@ class Graph:
         self.not_inlined = []   # (node id, callee, reason)
         self.pending_calls = []
         self._memo = {}
+        self._rd_ready = False
+        self._rdcache = {}
         self._onstack = set()
         self._cut = 0
         facts.fn(root)
@@ -308,13 +310,13 @@ class Graph:
                 self._memo.clear()
                 if is_closure:
                     # args = [closure value / ref, tuple of actual args]
-                    self.defs.setdefault((cinst, 1), []).append(('op', args[0], iid))
+                    self.defs.setdefault((cinst, 1), []).append(('op', args[0], iid, (nid, None)))
                     for k in range(ac - 1):
                         if len(args) > 1:
-                            self.defs.setdefault((cinst, 2 + k), []).append(('tfld', args[1], iid, k))
+                            self.defs.setdefault((cinst, 2 + k), []).append(('tfld', args[1], iid, k, (nid, None)))
                 else:
                     for i in range(min(ac, len(args))):
-                        self.defs.setdefault((cinst, i + 1), []).append(('op', args[i], iid))
+                        self.defs.setdefault((cinst, i + 1), []).append(('op', args[i], iid, (nid, None)))
             cinst, centry, crets = self._expand(callee, iid, nid, depth + 1, stack, how, binder)
             info['inlined'] = cinst
             info['name'] = callee
@@ -341,9 +343,9 @@ class Graph:
 
                 def binder(cinst, a=a, ac=ac):
                     self._memo.clear()
-                    self.defs.setdefault((cinst, 1), []).append(('op', a, iid))
+                    self.defs.setdefault((cinst, 1), []).append(('op', a, iid, (nid, None)))
                     if once and name.endswith(('dependently_mut', 'dependently')) and ac == 2 and len(t['args']) >= 2:
-                        self.defs.setdefault((cinst, 2), []).append(('op', t['args'][1], iid))
+                        self.defs.setdefault((cinst, 2), []).append(('op', t['args'][1], iid, (nid, None)))
                     else:
                         for k in range(ac - 1):
                             self.defs.setdefault((cinst, 2 + k), []).append(('hofarg', nid, k))
@@ -395,6 +397,9 @@ class Graph:
         for n in self.nodes:
             self._members.setdefault(self.site_of(n.id), []).append(n.id)
         self._live_sites = {self.site_of(n) for n in live}
+        self._memo.clear()
+        self._rdcache = {}
+        self._rd_ready = True
 
     def site_of(self, nid):
         n = self.nodes[nid]
@@ -654,8 +659,102 @@ class Graph:
         return cnt
 
     # ------------------------------------------------------------------ provenance
-    def ev_local(self, iid, l):
-        key = (iid, l)
+    # ---- reaching definitions (flow sensitivity for locals assigned more than once)
+    def _def_site(self, d):
+        """(node id, stmt index or None for 'at the end of the node') where a def takes effect"""
+        k = d[0]
+        if k == 'rv':
+            return (d[3], d[4])
+        if k == 'callres':
+            return (d[1], None)
+        if k == 'ret':
+            cn = self.insts[d[1]].call_node
+            return (cn, None) if cn is not None else None
+        return None   # argument bindings: at instance entry
+
+    def _rd(self, key):
+        """reaching-definition sets for variable key=(inst, local): dict node -> frozenset(def
+        indices) at node entry; None if the variable is not tracked (single definition)"""
+        if not self._rd_ready:
+            return None
+        if key in self._rdcache:
+            return self._rdcache[key]
+        ds = self.defs.get(key) or []
+        res = None
+        if len(ds) >= 2 and key not in self.pdefs:
+            sites = [self._def_site(d) for d in ds]
+            gen = {}      # site key (inst,bb) -> ordered list of (si, def index)
+            entry_defs = [i for i, st in enumerate(sites) if st is None]
+            for i, st in enumerate(sites):
+                if st is None:
+                    continue
+                n = self.nodes[st[0]]
+                gen.setdefault((n.inst, n.bb, n.kind), []).append((10 ** 9 if st[1] is None else st[1], i))
+            for v in gen.values():
+                v.sort()
+            entry_node = self.insts[key[0]].entry
+            live = self.live()
+            IN = {n: frozenset() for n in live}
+            OUT = {n: frozenset() for n in live}
+            work = list(live)
+            inwork = set(work)
+            while work:
+                n = work.pop()
+                inwork.discard(n)
+                N = self.nodes[n]
+                acc = set()
+                for p_ in N.preds:
+                    if p_ in OUT:
+                        acc |= OUT[p_]
+                if self.site_of(n) == self.site_of(entry_node):
+                    acc |= set(entry_defs)
+                acc = frozenset(acc)
+                IN[n] = acc
+                g_ = gen.get((N.inst, N.bb, N.kind)) if N.kind == 'block' else None
+                out = frozenset([g_[-1][1]]) if g_ else acc
+                if out != OUT[n]:
+                    OUT[n] = out
+                    for s_ in N.succs:
+                        if s_ in live and s_ not in inwork:
+                            work.append(s_)
+                            inwork.add(s_)
+            res = (IN, gen, sites)
+        self._rdcache[key] = res
+        return res
+
+    def reaching(self, key, at):
+        """indices of the defs of variable key reaching program point at=(node, stmt index|None)"""
+        rd = self._rd(key)
+        if rd is None or at is None or at[0] is None:
+            return None
+        IN, gen, sites = rd
+        nid, si = at
+        if nid not in IN:
+            # dead original of a threaded node: use a live member of its site
+            alts = [m for m in self.members(nid) if m in IN]
+            if not alts:
+                return None
+            acc = set()
+            for m in alts:
+                acc |= IN[m]
+            cur = frozenset(acc)
+        else:
+            cur = IN[nid]
+        N = self.nodes[nid]
+        g_ = gen.get((N.inst, N.bb, N.kind)) if N.kind == 'block' else None
+        if g_:
+            lim = 10 ** 9 + 1 if si is None else si
+            for (dsi, di) in g_:
+                # a def at statement dsi is visible to uses at later statements; a call's result
+                # (dsi = 1e9) is visible only after the node
+                if dsi < lim and not (si is None and dsi == 10 ** 9):
+                    cur = frozenset([di])
+        return cur
+
+    def ev_local(self, iid, l, at=None):
+        key0 = (iid, l)
+        rdset = self.reaching(key0, at) if at is not None else None
+        key = (iid, l, rdset)
         if key in self._memo:
             return self._memo[key]
         if key in self._onstack:
@@ -663,7 +762,9 @@ class Graph:
             return REC
         self._onstack.add(key)
         cut0 = self._cut
-        ds = self.defs.get(key)
+        ds = self.defs.get(key0)
+        if ds and rdset is not None:
+            ds = [d for i, d in enumerate(ds) if i in rdset]
         if not ds:
             inst = self.insts[iid]
             if 1 <= l <= inst.body['arg_count']:
@@ -696,29 +797,33 @@ class Graph:
         if k == 'rv':
             return self.ev_rv(d[2], d[1], d[3], d[4])
         if k == 'op':
-            return self.ev_op(d[2], d[1])
+            return self.ev_op(d[2], d[1], at=self._call_point(d))
         if k == 'ret':
             return self.ev_local(d[1], 0)
         if k == 'callres':
             return ('call', d[1])
         if k == 'tfld':
-            return self.fld(self.ev_op(d[2], d[1]), {'i': d[3], 'tuple': True})
+            return self.fld(self.ev_op(d[2], d[1], at=self._call_point(d)), {'i': d[3], 'tuple': True})
         if k == 'hofarg':
             return ('hofarg', d[1], d[2])
         return UNKNOWN
 
-    def ev_op(self, iid, o):
+    def _call_point(self, d):
+        """program point of an argument binding: the end of the call node in the caller"""
+        return d[-1] if isinstance(d[-1], tuple) else None
+
+    def ev_op(self, iid, o, at=None):
         k = o['k']
         if k in ('copy', 'move'):
-            return self.ev_place(iid, o['pl'])
+            return self.ev_place(iid, o['pl'], at)
         if k == 'const':
             if 'fn' in o:
                 return ('fnc', o['fn'])
             return ('c', o.get('v'), o.get('enumv'), o.get('ty'))
         return UNKNOWN
 
-    def ev_place(self, iid, pl):
-        e = self.ev_local(iid, pl['l'])
+    def ev_place(self, iid, pl, at=None):
+        e = self.ev_local(iid, pl['l'], at)
         # partial definitions of this local (e.g. `_8.0 = ...`)
         pd = self.pdefs.get((iid, pl['l']))
         projs = pl['p']
@@ -837,22 +942,23 @@ class Graph:
 
     def ev_rv(self, iid, rv, nid=None, si=None):
         k = rv['k']
+        at = (nid, si) if nid is not None else None
         if k == 'use':
-            return self.ev_op(iid, rv['op'])
+            return self.ev_op(iid, rv['op'], at)
         if k in ('ref', 'rawptr'):
-            return ('ref', self.ev_place(iid, rv['pl']))
+            return ('ref', self.ev_place(iid, rv['pl'], at))
         if k == 'cast':
-            inner = self.ev_op(iid, rv['op'])
+            inner = self.ev_op(iid, rv['op'], at)
             ck = rv['ck']
             return ('cast', ck, inner, rv['to']['s'])
         if k == 'bin':
-            return ('bin', rv['op'], self.ev_op(iid, rv['a']), self.ev_op(iid, rv['b']))
+            return ('bin', rv['op'], self.ev_op(iid, rv['a'], at), self.ev_op(iid, rv['b'], at))
         if k == 'un':
-            return ('un', rv['op'], self.ev_op(iid, rv['a']))
+            return ('un', rv['op'], self.ev_op(iid, rv['a'], at))
         if k == 'discr':
-            return ('discr', self.ev_place(iid, rv['pl']))
+            return ('discr', self.ev_place(iid, rv['pl'], at))
         if k == 'agg':
-            ops = tuple(self.ev_op(iid, o) for o in rv['ops'])
+            ops = tuple(self.ev_op(iid, o, at) for o in rv['ops'])
             ak = rv['ak']
             if ak == 'adt':
                 return ('agg', 'adt', '%s::%s' % (rv['adt'], rv['variant']), tuple(rv['fields']), ops, (nid, si), rv.get('discr'))
@@ -860,7 +966,7 @@ class Graph:
                 return ('agg', 'closure', rv['closure'], (), ops, (nid, si))
             return ('agg', ak, ak, (), ops, (nid, si))
         if k == 'repeat':
-            return ('repeat', self.ev_op(iid, rv['op']))
+            return ('repeat', self.ev_op(iid, rv['op'], at))
         return UNKNOWN
 
     def closures_of(self, e, _seen=None):
@@ -944,7 +1050,7 @@ class Graph:
 
     def call_args(self, nid):
         n = self.nodes[nid]
-        return [self.ev_op(n.inst, a) for a in n.term['args']]
+        return [self.ev_op(n.inst, a, at=(nid, None)) for a in n.term['args']]
 
     def call_name(self, nid):
         n = self.nodes[nid]
@@ -1186,7 +1292,7 @@ class Graph:
 
     def switch_expr(self, nid):
         n = self.nodes[nid]
-        return self.ev_op(n.inst, n.term['op'])
+        return self.ev_op(n.inst, n.term['op'], at=(nid, None))
 
     def edge_info(self, eid):
         """(switch node id, value or None, othervalues)"""
